@@ -201,6 +201,30 @@ def run_case(args):
                 fail("limit-wrong-count", f"{q3}: {len(r3['rows'])} rows, expected {want_n} of {N}", q3)
                 break
             res["feats"]["limit"] = res["feats"].get("limit", 0) + 1
+            # ORDER BY key columns that are NOT in the select list (unique keys => a total order):
+            # must equal the same query with the keys projected, keys stripped
+            if keycols:
+                desc = rng.random() < 0.25
+                kn = [t.cols[i].name for i in keycols]
+                ob = ", ".join(f"{k}{' DESC' if desc else ''}" for k in kn)
+                hidden = [e for e, i in zip(exprs, proj_idx + [None] * len(exprs)) if i not in keycols] or [f"({kn[0]} IS NULL)"]
+                hsel = ", ".join(f"{e} AS h{i}" for i, e in enumerate(hidden))
+                q4 = f"SELECT {hsel} FROM t{where} ORDER BY {ob}"
+                q5 = f"SELECT {hsel}, {', '.join(f'{k} AS k{i}' for i, k in enumerate(kn))} FROM t{where} ORDER BY {', '.join(f'k{i}' + (' DESC' if desc else '') for i in range(len(kn)))}"
+                r4, r5 = rl.sql(q4), rl.sql(q5)
+                res["evals"] += 2
+                if r4["ok"] and r5["ok"]:
+                    want = [list(x[:len(hidden)]) for x in r5["rows"]]
+                    if not is_sorted(r5["rows"], [(len(hidden) + i, desc) for i in range(len(kn))]):
+                        fail("order-by-not-sorted", f"{q5}: keys {[tuple(x[len(hidden):]) for x in r5['rows'][:10]]}", q5)
+                        break
+                    if [list(x) for x in r4["rows"]] != want:
+                        fail("order-by-unprojected-key-wrong-sequence", f"{q4}: {r4['rows'][:8]} expected {want[:8]}", q4)
+                        break
+                    res["feats"]["order-by-unprojected-key"] = res["feats"].get("order-by-unprojected-key", 0) + 1
+                elif r4["ok"] != r5["ok"]:
+                    fail("ordered-query-fails", f"{q4 if not r4['ok'] else q5}: {(r4 if not r4['ok'] else r5).get('err', '')[:100]}", q4)
+                    break
         res["sample"] = dict(engine=engine, layout=layout, ddl=stmts[0], inserts=len([s for s in stmts if s.startswith("INSERT")]))
     except Exception as e:
         res["inconclusive"] = f"harness: {type(e).__name__}: {e}"
